@@ -19,6 +19,9 @@
 (* the end of every behaviour the record of what the visitor saw and what  *)
 (* the checker reports is judged by CheckerObs!Checks (C01 C02 C03 C11     *)
 (* C13), and every discovery is a valid witness at EVERY state.            *)
+(* Symmetry = TRUE: symmetry reduction as in dfs.rs (the set of generated  *)
+(* states holds representatives); judged by the same checks (sym_cover,    *)
+(* verdicts, witness, paths) on symmetric process-vector graphs.           *)
 (* KeepFirst = FALSE is the as-found treatment of eventually-discoveries   *)
 (* (a terminal state overwrites an existing discovery) and must violate    *)
 (* WitnessAlways.                                                          *)
@@ -28,7 +31,11 @@ EXTENDS CheckerObs, Json, IOUtils, TLC
 CONSTANTS W, Strategy, BlockSize, KeepFirst,
           TargetDepth,    \* target_max_depth (0 = none): jobs at this depth or deeper are skipped
           TargetStates,   \* target_state_count (0 = none): checked after every block
-          FinishVariant   \* finish_when: "All" | "Any" | "AnyFailures" | "AllFailures"
+          FinishVariant,  \* finish_when: "All" | "Any" | "AnyFailures" | "AllFailures"
+          SymEnqueueRep,  \* spec mutant (the historical bug dfs.rs documents): continue with the representative instead of
+                          \* the state actually reached -- the collected paths then contain steps the model does not have
+          Symmetry        \* DFS only: the shared `generated' set holds REPRESENTATIVES (RepOf), the jobs and paths keep the
+                          \* states actually reached (dfs.rs: "continue the path with the pre-canonicalized state")
 
 Graphs == ndJsonDeserialize(IOEnv.GRAPHS)
 
@@ -44,6 +51,7 @@ EvBits == {i \in DOMAIN g.props : g.props[i].kind = "eventually"}
 Discovered(d) == {p[1] : p \in d}
 AllDisc(d) == \A i \in DOMAIN g.props : g.props[i].name \in Discovered(d)
 Finish == [variant |-> FinishVariant, names |-> <<>>]
+Key(s) == IF Symmetry THEN RepOf(g, s) ELSE s
 InitJobs == LET ins == SelectSeq(g.init, LAMBDA s : InB(g, s)) IN [i \in DOMAIN ins |-> Job(ins[i], <<ins[i]>>, EvBits, 1)]
 
 Init ==
@@ -53,7 +61,7 @@ Init ==
   /\ pc = [w \in W |-> "pop"]
   /\ pending = [w \in W |-> <<>>]
   /\ cur = [w \in W |-> NoJob] /\ idx = [w \in W |-> 0] /\ term = [w \in W |-> FALSE] /\ blk = [w \in W |-> 0]
-  /\ generated = InitB(g)
+  /\ generated = {Key(s) : s \in InitB(g)}
   /\ disc = {}
   /\ total = Len(InitJobs)
   /\ visits = <<>>
@@ -154,9 +162,10 @@ Expand(w) ==
              THEN UNCHANGED <<pending, term, generated, total>>                \* ignored action / outside the boundary
              ELSE /\ total' = total + 1
                   /\ term' = [term EXCEPT ![w] = FALSE]
-                  /\ IF t \in generated THEN UNCHANGED <<pending, generated>>
-                     ELSE /\ generated' = generated \cup {t}                 \* atomic insert-if-absent
-                          /\ LET nj == Job(t, Append(j.path, t), j.eb, j.depth + 1) IN
+                  /\ IF Key(t) \in generated THEN UNCHANGED <<pending, generated>>
+                     ELSE /\ generated' = generated \cup {Key(t)}            \* atomic insert-if-absent
+                          /\ LET t2 == IF SymEnqueueRep THEN Key(t) ELSE t
+                                 nj == Job(t2, Append(j.path, t2), j.eb, j.depth + 1) IN
                              pending' = [pending EXCEPT ![w] = IF Strategy = "bfs" THEN <<nj>> \o @ ELSE Append(@, nj)]
           /\ UNCHANGED <<disc, pc>>
   /\ UNCHANGED <<gi, open, openCount, batches, cur, blk, visits>>
@@ -193,7 +202,7 @@ AllDone == \A w \in W : pc[w] = "done"
 ActsOf(path) == [i \in 1..(Len(path) - 1) |-> CHOOSE k \in DOMAIN SuccList(g, path[i]) : SuccList(g, path[i])[k] = path[i + 1]]
 (* the behaviour so far, in the shape of a recorded real run *)
 RunRecord ==
-  [cfg |-> [strategy |-> Strategy, threads |-> N, symmetry |-> FALSE, finish |-> Finish,
+  [cfg |-> [strategy |-> Strategy, threads |-> N, symmetry |-> Symmetry, finish |-> Finish,
             target_states |-> TargetStates, target_depth |-> TargetDepth, timeout_ms |-> 0],
    visits |-> [i \in DOMAIN visits |-> [node |-> visits[i].node, path |-> visits[i].path, acts |-> ActsOf(visits[i].path)]],
    chooser |-> <<>>, chooser2 |-> <<>>,
@@ -206,7 +215,7 @@ RunRecord ==
                              IN F(S)]]
 
 Judged == {"no_panic", "paths", "subset", "once", "complete", "verdicts", "witness", "ev_sound", "ev_exact", "bfs_order", "shortest", "stop_reason",
-           "target", "target_real", "depth_max", "depth_min"}
+           "target", "target_real", "depth_max", "depth_min", "sym_cover"}
 (* at the end of every behaviour the observation passes exactly the checks real runs must pass *)
 EndOK == AllDone => (Failed(g, RunRecord) \cap Judged) = {}
 (* C03 at every moment: whatever is in the discovery map is a genuine witness *)
